@@ -9,11 +9,40 @@ use std::os::unix::fs::FileExt;
 pub struct Marker {
     f: Option<File>,
 }
+/// number of cases started so far (the watchdog aborts the process when it stops moving)
+pub static TICK: std::sync::atomic::AtomicU64 = std::sync::atomic::AtomicU64::new(0);
+
+/// A case of the code under test that does not terminate or eats memory without bound must not take the machine down:
+/// the address space of the driver is limited and a watchdog aborts the process when one case runs longer than
+/// VERIF_CASE_TIMEOUT seconds (default 60).  The parent attributes the abort to the marked case (a hang is data, C02).
+pub fn contain() {
+    unsafe {
+        let lim = libc::rlimit { rlim_cur: 8 << 30, rlim_max: 8 << 30 };
+        libc::setrlimit(libc::RLIMIT_AS, &lim);
+    }
+    let limit: u64 = std::env::var("VERIF_CASE_TIMEOUT").ok().and_then(|s| s.parse().ok()).unwrap_or(60);
+    std::thread::spawn(move || {
+        let mut last = TICK.load(std::sync::atomic::Ordering::Relaxed);
+        let mut since = std::time::Instant::now();
+        loop {
+            std::thread::sleep(std::time::Duration::from_millis(500));
+            let now = TICK.load(std::sync::atomic::Ordering::Relaxed);
+            if now != last {
+                last = now;
+                since = std::time::Instant::now();
+            } else if now > 0 && since.elapsed().as_secs() >= limit {
+                eprintln!("watchdog: the marked case did not finish within {} s (hang or unbounded loop in the code under test)", limit);
+                std::process::abort();
+            }
+        }
+    });
+}
 impl Marker {
     pub fn new(path: Option<&str>) -> Marker {
         Marker { f: path.map(|p| File::create(p).expect("marker file")) }
     }
     pub fn set(&self, id: &str) {
+        TICK.fetch_add(1, std::sync::atomic::Ordering::Relaxed);
         if let Some(f) = &self.f {
             let mut buf = [b' '; 64];
             let n = id.len().min(63);
